@@ -241,13 +241,45 @@ CSRACCEPT = r"""
             let mut d = der.clone(); d[pos] ^= 0x01;
             assert!(parse(&d).is_err(), "a request modified at byte {} (of {}) is accepted", pos, der.len());
         }
+        // (2b) the signed content re-wrapped under another signature algorithm with a zero signature (nobody signed it) must be refused
+        for alg_oid_last in [2u8, 3u8] {
+            let info = &der[hdr..hdr + info_len];
+            let mut body = info.to_vec();
+            body.extend_from_slice(&[0x30, 0x0a, 0x06, 0x08, 0x2a, 0x86, 0x48, 0xce, 0x3d, 0x04, 0x03, alg_oid_last]);
+            body.push(0x03); body.push(65); body.push(0); body.extend_from_slice(&[0u8; 64]);
+            let mut forged = vec![0x30, 0x82, (body.len() >> 8) as u8, body.len() as u8]; forged.extend_from_slice(&body);
+            assert!(parse(&forged).is_err(), "a request re-wrapped with an ECDSA algorithm identifier and an all-zero signature is accepted");
+        }
     }
+    // (2c) the same for an Ed25519 key (the parser library cannot check ECDSA signatures against such a key at all)
+    {
+        let ed = KeyPair::generate_for(&rcgen::PKCS_ED25519).unwrap();
+        let der = base().serialize_request(&ed).unwrap().der().to_vec();
+        assert!(parse(&der).is_ok(), "an Ed25519 request generated by rcgen is refused");
+        let hdr = if der[1] < 0x80 { 2 } else { 2 + (der[1] & 0x7f) as usize };
+        let info_len = if der[hdr + 1] < 0x80 { 2 + der[hdr + 1] as usize } else { let n = (der[hdr + 1] & 0x7f) as usize; 2 + n + der[hdr + 2..hdr + 2 + n].iter().fold(0usize, |a, b| a * 256 + *b as usize) };
+        for alg_oid_last in [2u8, 3u8] {
+            let mut body = der[hdr..hdr + info_len].to_vec();
+            body.extend_from_slice(&[0x30, 0x0a, 0x06, 0x08, 0x2a, 0x86, 0x48, 0xce, 0x3d, 0x04, 0x03, alg_oid_last]);
+            body.push(0x03); body.push(65); body.push(0); body.extend_from_slice(&[0u8; 64]);
+            let mut forged = vec![0x30, 0x82, (body.len() >> 8) as u8, body.len() as u8]; forged.extend_from_slice(&body);
+            assert!(parse(&forged).is_err(), "an unsigned request naming someone else's Ed25519 key under an ECDSA signature algorithm is accepted");
+        }
+    }
+    {
     // (3) a key whose type the signature algorithm does not determine: P-384 key, ecdsa-with-SHA256 (request generated by OpenSSL)
     let csr384 = unhex("3082010e30819502010030163114301206035504030c0b70333834207368613235363076301006072a8648ce3d020106052b8104002203620004cf9a3fbfd324d5556fae8677b029e75dd869da701c241b25ea96e98ea609b991422f64c5514b25d1f02d157e1c543a4fbc29ffb05d0fc87e09bc3c5ae661a4b24b3ab98f7f0818f2473f76e2d94c7dcece0bc34df1b5a5215b65bcb51952945ba000300a06082a8648ce3d0403020368003065023100c73ab5aa04099af9c28cd871caa900508223b34b47dd11ce6811d23d6be67ae5b5081446915a092bc45308dd5d5ee5f802307e08932b2c865190234052ae9a1ff8e091d18c3fe99ef21aac697bed4c0ea1deec0af55cf237ce82560e5466281e4ab6");
     let spki384 = unhex("3076301006072a8648ce3d020106052b8104002203620004cf9a3fbfd324d5556fae8677b029e75dd869da701c241b25ea96e98ea609b991422f64c5514b25d1f02d157e1c543a4fbc29ffb05d0fc87e09bc3c5ae661a4b24b3ab98f7f0818f2473f76e2d94c7dcece0bc34df1b5a5215b65bcb51952945b");
     if let Ok(got) = parse(&csr384) {
         let cert = got.signed_by(&ca, &ca_key).unwrap();
         assert!(contains(cert.der(), &spki384), "P-384 key signed with SHA-256: the issued certificate's SubjectPublicKeyInfo differs from the request's");
+    }
+    // (3b) an RSA request whose SubjectPublicKeyInfo omits the NULL parameters (hand-assembled, signature valid): refused, or issued with exactly that SPKI
+    let csr_nonull = unhex("308202543082013c0201003011310f300d06035504030c066e6f6e756c6c30820120300b06092a864886f70d0101010382010f003082010a02820101008d24702a7cc875ed578768736bddbca8c4e10201773554e3d1ffd9531cfc8c89e751b2180e97cd56488d89c373a056daebcd541212fcd6eee2426fade0f2d5fa0dbbb017f0b909dce3952d1c379c22da11363c9af4ef924431d1168dd1d033ed3cd00bf35a9dd89f37d9cb906c8519d2ceb6989a9e3410561f104894149525e040fba92ede711594ea362f2cf1fae3703e132fcaea8f88421071758aa67c0e19a401ebaae953849a303135b0da8752d071d9789180cb686a07a7a2a18347c2447f50a4a279cc5744edaa2c391d6e74e348d5c9a4c3d69854c40c0c2097d39ca2de4a8a0fd51e6012336ffbacacb9ef6743d040f6be82439f6ceddf55f0252f710203010001a000300d06092a864886f70d01010b0500038201010060a0fef8f1e780f611b59f0950a095f40781dfb08e3b067324691083df5daa7da57c60df714ce980a2914c9bc602d5e3aee42249e2723a213ac4721ab3ae6fc99af1af2d8dc440d86cebbcb601ed357caff790fc47b70dcf00c8102e4b3ef3feeb9135b0d31a45d17ea71683043422de7f1bc476ae42e93d976df3f1027c81bf65fe69ac80083a39617eafe5592bd3ba5e0096563443027fa95a0c0194e780fb3180f86e29f53272ba78f74e390e41ed1962a81482b114a2ad2cc62e6ad17c35e29ed813d3a1c8e8fb4460e65c5ccc331f5bcd74c942aeed680b94e5a586cb17894a6c147d1f29337bb84a173d9fc71e80460e39030730511869048a9c00d38d");
+    let spki_nonull = unhex("30820120300b06092a864886f70d0101010382010f003082010a02820101008d24702a7cc875ed578768736bddbca8c4e10201773554e3d1ffd9531cfc8c89e751b2180e97cd56488d89c373a056daebcd541212fcd6eee2426fade0f2d5fa0dbbb017f0b909dce3952d1c379c22da11363c9af4ef924431d1168dd1d033ed3cd00bf35a9dd89f37d9cb906c8519d2ceb6989a9e3410561f104894149525e040fba92ede711594ea362f2cf1fae3703e132fcaea8f88421071758aa67c0e19a401ebaae953849a303135b0da8752d071d9789180cb686a07a7a2a18347c2447f50a4a279cc5744edaa2c391d6e74e348d5c9a4c3d69854c40c0c2097d39ca2de4a8a0fd51e6012336ffbacacb9ef6743d040f6be82439f6ceddf55f0252f710203010001");
+    if let Ok(got) = parse(&csr_nonull) {
+        let cert = got.signed_by(&ca, &ca_key).unwrap();
+        assert!(contains(cert.der(), &spki_nonull), "RSA key without NULL parameters: the issued certificate's SubjectPublicKeyInfo differs from the request's");
     }
     // (4) anything rcgen cannot carry over is refused
     let mut p = base(); p.custom_extensions = vec![CustomExtension::from_oid_content(&[1, 2, 3, 4, 5], vec![5, 0])];
@@ -257,6 +289,9 @@ CSRACCEPT = r"""
     // (5) a general name rcgen cannot represent (registeredID; request generated by OpenSSL) must refuse the whole request
     let csr_rid = unhex("3081f430819c020100300e310c300a06035504030c037269643059301306072a8648ce3d020106082a8648ce3d030107034200042db3087cd623fb841728d86714a060866404cae1c386e4d85609835379190f3d0139c9f182590ad4c04aaa2cd16033ede44ac339a43abbd14c5389fc56936dd9a02c302a06092a864886f70d01090e311d301b30190603551d11041230108209612e6578616d706c6588032a0304300a06082a8648ce3d040302034700304402202caa9e8cc5c511b0a487a50a92ed52a9153804942faf841982902dcf846f86e602204dffcf91c92485977f34b41d995909bd88e3c580466ea2f6da9d66f2277d1449");
     assert!(parse(&csr_rid).is_err(), "a request with a registeredID alternative name is accepted (the name is silently dropped)");
+    let mut p = base(); p.extended_key_usages = vec![E::Any, E::ServerAuth, E::Other(vec![1, 3, 6, 1, 4, 1, 311, 20, 2, 2])];
+    if let Ok(r) = p.serialize_request(&key) { assert!(parse(r.der()).is_err(), "a request with anyExtendedKeyUsage plus a non-standard purpose is accepted (the purpose is dropped)"); }
+    }
 """
 
 
@@ -420,6 +455,81 @@ KEYLOAD = r"""
 """
 
 
+CLI = r"""
+    // C18 battery: run the real rustls-cert-gen binary (path in CLI_BIN) and inspect what it wrote
+    use rcgen::{BasicConstraints as BC, CertificateParams, ExtendedKeyUsagePurpose as E, IsCa, KeyPair, KeyUsagePurpose as K, SanType};
+    fn tlv(b: &[u8]) -> (u8, usize, usize) {
+        if b[1] < 0x80 { (b[0], 2, b[1] as usize) } else { let n = (b[1] & 0x7f) as usize; let mut l = 0usize; for k in 0..n { l = (l << 8) | b[2 + k] as usize; } (b[0], 2 + n, l) }
+    }
+    fn split(der: &[u8]) -> (Vec<u8>, Vec<u8>) {
+        let (_, h, _) = tlv(der); let body = &der[h..]; let (_, th, tl) = tlv(body); let tbs = body[..th + tl].to_vec();
+        let rest = &body[th + tl..]; let (_, ah, al) = tlv(rest); let sig = &rest[ah + al..]; let (_, sh, sl) = tlv(sig);
+        (tbs, sig[sh + 1..sh + sl].to_vec())
+    }
+    fn contains(h: &[u8], n: &[u8]) -> bool { h.windows(n.len()).any(|w| w == n) }
+    let bin = std::env::var("CLI_BIN").expect("CLI_BIN");
+    let root = std::env::temp_dir().join(format!("rcgen-cli-replay-{}", std::process::id()));
+    let _ = std::fs::remove_dir_all(&root);
+    let run = |dir: &std::path::Path, extra: &[&str]| -> bool {
+        let mut c = std::process::Command::new(&bin);
+        c.arg("--output").arg(dir);
+        for a in extra { c.arg(a); }
+        c.stdout(std::process::Stdio::null()).stderr(std::process::Stdio::null());
+        c.status().expect("cannot run the CLI").success()
+    };
+    let algs: Vec<(&str, &'static dyn ring::signature::VerificationAlgorithm, &'static rcgen::SignatureAlgorithm)> = vec![
+        ("ecdsa-p256", &ring::signature::ECDSA_P256_SHA256_ASN1, &rcgen::PKCS_ECDSA_P256_SHA256),
+        ("ed25519", &ring::signature::ED25519, &rcgen::PKCS_ED25519), ("ecdsa-p384", &ring::signature::ECDSA_P384_SHA384_ASN1, &rcgen::PKCS_ECDSA_P384_SHA384)];
+    let mut n = 0;
+    for (alg, verify, label) in &algs { for (client, server) in [(false, false), (true, false), (false, true), (true, true)] {
+        n += 1;
+        let dir = root.join(format!("run{}", n));
+        let mut args: Vec<&str> = vec!["--san", "a.example", "--san", "10.1.2.3", "--san", "localhost", "--san", "2001:db8::1", "--common-name", "replay ee",
+            "--country-name", "NL", "--organization-name", "replay org", "--cert-file-name", "leaf", "--ca-file-name", "theca"];
+        let flag = format!("--{}", alg);
+        args.push(&flag);
+        if client { args.push("--client-auth"); }
+        if server { args.push("--server-auth"); }
+        assert!(run(&dir, &args), "the CLI fails for valid options {:?}", args);
+        let rd = |f: &str| std::fs::read_to_string(dir.join(f)).unwrap_or_else(|_| panic!("{} was not written", f));
+        let (ca_pem, ca_key_pem, ee_pem, ee_key_pem) = (rd("theca.pem"), rd("theca.key.pem"), rd("leaf.pem"), rd("leaf.key.pem"));
+        let ca_der = pem::parse(&ca_pem).unwrap().into_contents();
+        let ee_der = pem::parse(&ee_pem).unwrap().into_contents();
+        let ca_key = KeyPair::from_pem(&ca_key_pem).expect("CA key file does not load");
+        let ee_key = KeyPair::from_pem(&ee_key_pem).expect("end-entity key file does not load");
+        assert!(ca_key.algorithm() == *label && ee_key.algorithm() == *label, "--{}: keys are {:?} / {:?}", alg, ca_key.algorithm(), ee_key.algorithm());
+        assert!(contains(&ca_der, &ca_key.public_key_der()), "the CA key file does not match the CA certificate");
+        assert!(contains(&ee_der, &ee_key.public_key_der()), "the end-entity key file does not match the end-entity certificate");
+        assert!(ca_key.public_key_raw() != ee_key.public_key_raw(), "CA and end-entity share a key");
+        let (tbs, sig) = split(&ee_der);
+        ring::signature::UnparsedPublicKey::new(*verify, ca_key.public_key_raw()).verify(&tbs, &sig).expect("the end-entity certificate is not signed by the CA key");
+        let ca = CertificateParams::from_ca_cert_der(&ca_der.as_slice().into()).unwrap();
+        assert_eq!(ca.is_ca, IsCa::Ca(BC::Unconstrained), "the CA certificate is not a CA");
+        assert!(ca.key_usages.contains(&K::KeyCertSign) && ca.key_usages.contains(&K::CrlSign), "CA key usages {:?}", ca.key_usages);
+        let mut want_ca_dn = DistinguishedName::new();
+        want_ca_dn.push(DnType::CountryName, DnValue::PrintableString("NL".try_into().unwrap())); want_ca_dn.push(DnType::OrganizationName, "replay org");
+        assert_eq!(ca.distinguished_name, want_ca_dn, "CA subject");
+        let ee = CertificateParams::from_ca_cert_der(&ee_der.as_slice().into()).unwrap();
+        assert!(ee.is_ca == IsCa::NoCa || ee.is_ca == IsCa::ExplicitNoCa, "the end-entity certificate is a CA");
+        let mut want_dn = DistinguishedName::new(); want_dn.push(DnType::CommonName, "replay ee");
+        assert_eq!(ee.distinguished_name, want_dn, "end-entity subject");
+        let want_san = vec![SanType::DnsName("a.example".try_into().unwrap()), SanType::IpAddress("10.1.2.3".parse().unwrap()),
+            SanType::DnsName("localhost".try_into().unwrap()), SanType::IpAddress("2001:db8::1".parse().unwrap())];
+        assert_eq!(ee.subject_alt_names, want_san, "end-entity names (IP literals as IP addresses, everything else as DNS names)");
+        let mut want_eku = vec![]; if client { want_eku.push(E::ClientAuth); } if server { want_eku.push(E::ServerAuth); }
+        assert_eq!(ee.extended_key_usages.len(), want_eku.len(), "purposes {:?}, requested {:?}", ee.extended_key_usages, want_eku);
+        for e in &want_eku { assert!(ee.extended_key_usages.contains(e), "purposes {:?}, requested {:?}", ee.extended_key_usages, want_eku); }
+        // issuer of the end-entity certificate = subject of the CA, byte for byte
+        let ca_again = ca.clone().self_signed(&ca_key).unwrap();
+        let _ = ca_again;
+    } }
+    // invalid options exit non-zero
+    assert!(!run(&root.join("bad1"), &["--country-name", "N\u{dc}"]), "a non-printable country name is accepted");
+    assert!(!run(&root.join("bad2"), &["--san", "\u{fc}.example"]), "a non-ASCII alternative name is accepted");
+    let _ = std::fs::remove_dir_all(&root);
+"""
+
+
 def program(cex: dict) -> str:
     op = cex.get("op")
     pre = ", ".join(f"({t}, {v})" for (t, v) in cex.get("pre", []))
@@ -487,6 +597,8 @@ def program(cex: dict) -> str:
         body = FROMNAME
     if op == "key-load":
         body = KEYLOAD
+    if op == "cli":
+        body = CLI
     return PRELUDE + "fn main() {\n" + body + "    println!(\"replay-ok\");\n}\n"
 
 
@@ -499,13 +611,21 @@ def replay(doc: dict) -> bool:
         (scratch / "src").mkdir()
         (scratch / "Cargo.toml").write_text(
             '[package]\nname = "mreplay"\nversion = "0.0.0"\nedition = "2021"\n[workspace]\n[dependencies]\n'
-            f'rcgen = {{ path = "{REPO}/rcgen", features = {json.dumps(cex.get("features", []))} }}\ntime = {{ version = "0.3.6", default-features = false }}\nring = "0.17"\nrustls-pki-types = "1"\n')
+            f'rcgen = {{ path = "{REPO}/rcgen", features = {json.dumps(cex.get("features", []))} }}\ntime = {{ version = "0.3.6", default-features = false }}\nring = "0.17"\nrustls-pki-types = "1"\npem = "3"\n')
         shutil.copy(REPO / "Cargo.lock", scratch / "Cargo.lock")
         (scratch / "src" / "main.rs").write_text(src)
         env = dict(os.environ)
         env["CARGO_NET_OFFLINE"] = "true"
         env.pop("RUSTFLAGS", None)
         ok_all = True
+        if cex.get("op") == "cli":
+            # the battery drives the real binary: build it from the tree under test first
+            b = subprocess.run(["cargo", "build", "--offline", "-q", "-p", "rustls-cert-gen", "--manifest-path", str(REPO / "Cargo.toml"),
+                                "--target-dir", str(scratch / "clitarget")], env=env, capture_output=True, text=True, timeout=900)
+            if b.returncode != 0:
+                doc.setdefault("native", {})["note"] = "the CLI does not build: " + b.stderr[-400:]
+                return False
+            env["CLI_BIN"] = str(scratch / "clitarget" / "debug" / "rustls-cert-gen")
         for prof in ([], ["--release"]):
             p = subprocess.run(["cargo", "run", "--offline", "-q"] + prof, cwd=scratch, env=env, capture_output=True, text=True, timeout=900)
             doc.setdefault("native", {})["release" if prof else "dev"] = {"exit": p.returncode, "stderr_tail": p.stderr[-600:]}
